@@ -54,6 +54,10 @@ func c19Subset(k int) (int, int) {
 }
 
 func c19Bitrate(r *fw.Rand) int {
+	if r.Chance(1, 40) {
+		// the field is an int and the encoding an unbounded LEB128: values beyond 32 bits are ordinary non-negative bitrates
+		return int(r.PickU64(1<<32, 1<<32+1, 1<<35-1, 1<<35, 1<<42, 1<<42-1, 1<<49-1, 1<<49, 1<<56-1, 1<<49+r.U64()%(1<<49), 1<<56, 1<<62, 1<<63-1))
+	}
 	return int(r.PickU64(0, 1, 127, 128, 16383, 16384, 1<<21-1, 1<<21, 1<<21+1, 1<<28-1, 1<<28, 1<<32-1, r.U64()%300, r.U64()%100000, r.U64()%(1<<32)))
 }
 
@@ -124,6 +128,10 @@ func c19Equal(v *ref.VLA, got *rtp.VLA) string {
 		}
 		for j := range l.Kbps {
 			if g.TargetBitrates[j] != l.Kbps[j] {
+				if uint64(l.Kbps[j]) >= 1<<56 {
+					// a value that needs nine or ten LEB128 bytes: its own (narrow) signature
+					return "bitrate/value-needs-9-or-10-leb128-bytes"
+				}
 				return "bitrate"
 			}
 		}
